@@ -29,7 +29,11 @@ pub fn check(rep: &mut CaseReport, m: &SenderModel, events: &[Event]) {
         _ => None,
     });
     let silent_forever = events.iter().any(|e| matches!(&e.ev, Ev::Note(n) if n.contains("Some(18446744073709551615)")));
+    if events.iter().any(|e| matches!(&e.ev, Ev::Note(n) if n.starts_with("peer noise"))) {
+        rep.counters.inc("c05_silent_phases_with_non_acknowledging_packets");
+    }
     let mut seen_retx_in_silence = false;
+    let mut timeout_idx: Option<i64> = None;
     let mut last_ts_with_data: Option<(u64, u32)> = None;
     // size probes (first transmission larger than the proven segment size): their expiry is, by
     // design, not treated as a congestion timeout (the probe is taken back and normal sending
@@ -113,6 +117,21 @@ pub fn check(rep: &mut CaseReport, m: &SenderModel, events: &[Event]) {
                 }
                 if seen_retx_in_silence {
                     rep.counters.inc("c05_timeout_sends_checked");
+                    // nothing new is acknowledged in this phase (the peer's noise repeats its last
+                    // ACK): every expiry retransmits the same, oldest unacknowledged segment
+                    match timeout_idx {
+                        None => timeout_idx = Some(s.idx),
+                        Some(i) if i != s.idx && !s.first_tx && !probes.contains(&s.idx) => {
+                            rep.violate(
+                                P,
+                                "other-segment-after-timeout",
+                                "timeout".to_string(),
+                                format!("after a retransmission timeout of segment index {i}, with nothing new acknowledged since, segment index {} (seq {}) was transmitted at t={} us", s.idx, s.seq, s.t),
+                                Some(s.t),
+                            );
+                        }
+                        _ => {}
+                    }
                     if s.first_tx {
                         rep.violate(
                             P,
